@@ -501,7 +501,8 @@ def sim(cls: type) -> Sim:
             # Special case Python's conventional "ignored" name, the underscore.
             # Leave attributes named "_"'s `name` field set to `None`.
             # Attributes without a `name` field - `Save` and the frozen `Literal` - are taken as they are.
-            if key != "_" and hasattr(val, "name"):
+            # The `name` of an `Options` is the name of the simulator option it sets, not a label: it is kept.
+            if key != "_" and hasattr(val, "name") and not isinstance(val, Options):
                 val.name = key
             attrs.append(val)
         else:  # Add to the forget-list
